@@ -288,5 +288,34 @@ ENSURES(RET == 1 IMPLIES G_fs_calls == OLD(G_fs_calls) + 1 && G_fs_last == 1 && 
 /* not exhausted: the next unused slot, no refill; exhausted: exactly one successful refill, then slot 31 */
 ENSURES((RET == 1 && OLD(ctx->num_pre_comp) > 0) IMPLIES ctx->num_pre_comp == OLD(ctx->num_pre_comp) - 1 && G_pc_calls == OLD(G_pc_calls))
 ENSURES((RET == 1 && OLD(ctx->num_pre_comp) == 0) IMPLIES ctx->num_pre_comp == SM2_SIGN_PRE_COMP_COUNT - 1 && G_pc_calls == OLD(G_pc_calls) + 1 && G_pc_last == 1)
+/* C18, on EVERY return: the counter of unused nonces never grows without a successful refill, and a failed refill leaves it at zero
+   (slots >= num_pre_comp have been used or are half-written and must never become "unused" again) */
+ENSURES((ctx != NULL && G_pc_calls == OLD(G_pc_calls)) IMPLIES ctx->num_pre_comp <= OLD(ctx->num_pre_comp))
+ENSURES((ctx != NULL && G_pc_calls != OLD(G_pc_calls)) IMPLIES (G_pc_calls == OLD(G_pc_calls) + 1 && OLD(ctx->num_pre_comp) == 0))
+ENSURES((ctx != NULL && G_pc_calls != OLD(G_pc_calls) && G_pc_last != 1) IMPLIES ctx->num_pre_comp == 0)
+;
+
+int sm2_fast_sign_compute_key(const SM2_KEY *key, sm2_z256_t fast_private)
+REQUIRES(RD_OK(key, sizeof(*key)) && WR_OK(fast_private, 32))
+ASSIGNS(OBJ_UPTO((uint8_t *)fast_private, 32))
+ENSURES(RET == 1 || RET == -1)
+;
+
+/* reset rewinds the message hash only: the nonce bookkeeping is untouched */
+int sm2_sign_reset(SM2_SIGN_CTX *ctx)
+REQUIRES(RW_OK(ctx, sizeof(*ctx)))
+ASSIGNS(OBJ_UPTO((uint8_t *)&ctx->sm3_ctx, sizeof(SM3_CTX)))
+ENSURES(RET == 1 && ctx->num_pre_comp == OLD(ctx->num_pre_comp))
+;
+
+/* init: a context is usable only after a successful batch generation, and then announces exactly that batch */
+int sm2_sign_init(SM2_SIGN_CTX *ctx, const SM2_KEY *key, const char *id, size_t idlen)
+REQUIRES(ctx == NULL || WR_OK(ctx, sizeof(*ctx)))
+REQUIRES(key == NULL || RD_OK(key, sizeof(*key)))
+REQUIRES(id == NULL || idlen == 0 || idlen > SM2_MAX_ID_LENGTH || RD_OK(id, idlen))
+ASSIGNS(ctx != NULL: OBJ_UPTO((uint8_t *)ctx, sizeof(*ctx)); G_pc_calls, G_pc_last, G_fin_fed, G_fin_tbyte, G_fin_tseen, G_fin_calls)
+ENSURES(RET == 1 || RET == -1)
+ENSURES(RET == 1 IMPLIES (ctx != NULL && key != NULL && G_pc_calls == OLD(G_pc_calls) + 1 && G_pc_last == 1 && ctx->num_pre_comp == SM2_SIGN_PRE_COMP_COUNT))
+ENSURES(RET == 1 IMPLIES (id == NULL || (idlen >= 1 && idlen <= SM2_MAX_ID_LENGTH)))
 ;
 #endif
